@@ -839,7 +839,8 @@ storages over, the order Sync / `AcmeUpdate` / `HAProxyUpdate` of a reconciliati
 guards of `AcmeUpdate` and the instance fields it touches (no
 `failedSince`/`reloadOwed`/`up`), the deferred `Commit` at the head of `HAProxyUpdate`, the retry of an
 owed reload, `updateSuccessful`, the bookkeeping of `Reload`, the committed-data test of the dynamic
-updater, the host requirement of an acme TLS block, and what `trackAddedIngress` pre-tracks -/
+updater, the host requirement of an acme TLS block, and what `trackAddedIngress` pre-tracks (the fifth
+`ctx`: the default host, under `strict-host` only — repairs de67e1a/204d50f; none is `ResourceAcmeData`) -/
 theorem facts_c17 :
     Facts.c17VerifyConds = ["errSecret != nil || tls.Crt.NotAfter.Before(duedate) || !match(domains, tls.Crt)", "errSecret != nil", "tls.Crt.NotAfter.Before(duedate)", "crt != nil && key != nil", "err != nil", "errTLS == nil"] ∧
     Facts.c17VerifyDue = ["duedate := time.Now().Add(s.expiring)"] ∧
@@ -861,7 +862,7 @@ theorem facts_c17 :
     Facts.c17ReloadMarks = ["i.reloadOwed = true", "i.updateSuccessful(false)", "i.reloadOwed = false", "i.up = true", "i.updateSuccessful(true)"] ∧
     Facts.c17DynUpdateFirst = ["updated := d.config.hasCommittedData() && d.checkConfigChange()"] ∧
     Facts.c17AcmeTLSConds = ["tls.SecretName != \"\"", "tls.SecretName != \"\" && len(tls.Hosts) > 0", "tls.SecretName != \"\""] ∧
-    Facts.c17PreTrackContexts = ["convtypes.ResourceHABackend", "ctx", "ctx", "ctx", "ctx", "convtypes.ResourceHABackend"] :=
+    Facts.c17PreTrackContexts = ["convtypes.ResourceHABackend", "ctx", "ctx", "ctx", "ctx", "ctx", "convtypes.ResourceHABackend"] :=
   ⟨rfl, rfl, rfl, rfl, rfl, rfl, rfl, rfl, rfl, rfl, rfl, rfl, rfl, rfl, rfl, rfl, rfl, rfl, rfl, rfl, rfl⟩
 
 end HapVerif.C17
